@@ -27,7 +27,7 @@ import tempfile
 from ..framework import Check, Violation
 from ..xplore import HarnessError, Stats
 from ..env import Rng, patched
-from ..att import k1, layout as L, sgx as S
+from ..att import k1, layout as L, sgx as S, seams
 from ..att.ledgergen import LedgerGen, pubkeys_variants, CHAIN_VARIANTS as L_CHAINS
 from ..att.sgxgen import SgxGen, CHAIN_VARIANTS as S_CHAINS
 
@@ -102,19 +102,6 @@ S_ROOTS = ["right", "wrong", "garbage-pem", "none", "ca-as-root", "empty-file", 
 Q_S_ROOTS = S_ROOTS[:4]
 
 
-class _NoNetwork:
-    """Stand-in for the ``requests`` module inside admin.attestation_utils."""
-
-    def __init__(self):
-        self.calls = []
-
-    def get(self, url, *a, **k):
-        self.calls.append(url)
-        raise ConnectionError("network access is not available to the checks: %s" % url)
-
-    post = get
-
-
 def options_for(plat, cert_path, pubkeys_path, root):
     """The namespace adm_ledger.py / adm_sgx.py hand to the command (all their ``dest``s)."""
     d = dict(operation="verify_attestation", pin=None, new_pin=None, any_pin=False,
@@ -166,7 +153,8 @@ class C08(Check):
         "first/last byte of a field; key sets whose hash starts/ends with a given byte are found by "
         "search over the last wallet key",
         "requests.get is replaced by a function that raises: a URL root is an error case",
-        "X.509 validity is evaluated at a fixed clock (admin.certificate_v2.datetime replaced)",
+        "X.509 validity: the reference instant is noon UTC of the current day, owned through the "
+        "module's datetime and, with margins of a day, also true for any real clock",
         "state kept between calls is observed only within one process and one case (the same three "
         "paths); the verdict of a call must equal the verdict of the same call made alone",
     ]
@@ -183,6 +171,9 @@ class C08(Check):
         import admin.certificate_v2 as CV2
         from admin.misc import AdminError
         self.VL, self.VS, self.AU, self.CV2, self.AdminError = VL, VS, AU, CV2, AdminError
+        # seams, for the whole process: no network through any HTTP client, the X.509 clock
+        seams.install_no_network()
+        seams.install_clock(CV2, S.CLOCK)
         L.calibrate_docs()
         L.calibrate_firmware_order()
         S.calibrate_recorded_envelope()
@@ -663,22 +654,20 @@ class C08(Check):
             mod = self.VS
         put(paths["cert"], cert_text)
         put(paths["pk"], self.pkv(v.get("keyset", "base"))[v["pubkeys"]][0])
-        net = _NoNetwork()
         buf = io.StringIO()
         outcome, exc_class, exc_text = "ok", None, ""
         S.FixedClock.current = S.CLOCK
-        with patched((self.AU, "requests", net), (self.CV2, "datetime", S.FixedClock)):
-            with contextlib.redirect_stdout(buf):
-                try:
-                    if via_main:
-                        self.run_main(plat, paths["cert"], paths["pk"], root)
-                    else:
-                        mod.do_verify_attestation(options_for(plat, paths["cert"], paths["pk"], root))
-                except SystemExit as e:
-                    if e.code not in (0, None):
-                        outcome, exc_class, exc_text = "err", "exit-%s" % (e.code,), ""
-                except BaseException as e:   # noqa
-                    outcome, exc_class, exc_text = "err", type(e).__name__, str(e)
+        with contextlib.redirect_stdout(buf):
+            try:
+                if via_main:
+                    self.run_main(plat, paths["cert"], paths["pk"], root)
+                else:
+                    mod.do_verify_attestation(options_for(plat, paths["cert"], paths["pk"], root))
+            except SystemExit as e:
+                if e.code not in (0, None):
+                    outcome, exc_class, exc_text = "err", "exit-%s" % (e.code,), ""
+            except BaseException as e:   # noqa
+                outcome, exc_class, exc_text = "err", type(e).__name__, str(e)
         if shared is None:
             self.drop_paths(paths)
         if exc_class is not None and exc_class != "AdminError" and not exc_class.startswith("exit-"):
